@@ -84,7 +84,7 @@ theorem no_live_shard_loses_index (clock d : Int) (cs : List CSh) (ci : List CIx
     (ev.fresh = true → ev.d = ev.refD) := by
   have hA := ((InvA.init clock d hal).steps ops).logOk ev hev hk
   have hF := ((InvF.init clock d cs ci).steps ops).logF ev hev hk
-  exact ⟨hA.1.1, hA.1.2.1, hA.1.2.2, hF⟩
+  exact ⟨hA.1, hA.2.1, hA.2.2, hF⟩
 
 /-- **unlimited_never_deletes**: over every history, an index whose builder this run's refresh
 reached under an unlimited policy (meta handed out 0) is neither marked, deleted nor pruned. -/
@@ -95,16 +95,38 @@ theorem unlimited_never_deletes (clock d : Int) (cs : List CSh) (ci : List CIx) 
   rw [← h4 hf]
   exact h1
 
+/-- **index_waits_for_live_shards** (any catalogue — no alignment assumed, so also for a shard
+group that outlives its index group, which `ALTER RETENTION POLICY … SHARD DURATION` can produce):
+over every history, a builder of the partition is marked / deleted / pruned only if every shard
+object that worked with it when `ExpiredIndexes` ran had itself expired, by its own duration, at
+that clock reading.  (`ExpiredIndexes` skips an expired builder while a live shard holds it.) -/
+theorem index_waits_for_live_shards (clock d : Int) (cs : List CSh) (ci : List CIx) (ops : List Op) (ev : Ev)
+    (hev : ev ∈ (steps (St.init clock d cs ci) ops).log) (hk : ev.kind ≠ .delShard) (hn : ev.fromNil = false) :
+    ∀ u ∈ ev.held, u.2.2 ≠ 0 ∧ u.2.1 + u.2.2 < ev.now :=
+  ((InvG.init clock d cs ci).steps ops).logG ev hev hk hn
+
+/-- **clock_set_back_is_harmless**: ticks may be negative (the wall clock set back, at any point
+of a history): every record still carries the clock reading `now` of the expiry test that decided
+it and `end + d < now` held at that reading — a decision is never justified by a later or an
+earlier reading than its own.  (Statement of `no_live_shard_loses_index` specialised; here to make
+the quantification over negative ticks explicit.) -/
+theorem clock_set_back_is_harmless (clock d : Int) (cs : List CSh) (ci : List CIx) (hal : AlignedCat cs ci)
+    (pre post : List Op) (dt : Int) (_hdt : dt < 0) (ev : Ev)
+    (hev : ev ∈ (steps (St.init clock d cs ci) (pre ++ [.tick dt] ++ post)).log) (hk : ev.kind ≠ .delShard) :
+    ev.d ≠ 0 ∧ ev.endT + ev.d < ev.now :=
+  let h := no_live_shard_loses_index clock d cs ci hal (pre ++ [.tick dt] ++ post) ev hev hk
+  ⟨h.1, h.2.1⟩
+
 /-- where a builder can go: if the store holds a builder for index `x.iid` before a step and none
 after it, the step was the index-loop iteration for that index, the delete ran, and the record
 with the users of that moment is in the log. -/
 theorem index_loss_recorded {σ : St} (op : Op) {x : XIndex} (hx : x ∈ σ.idxs)
     (hgone : ∀ x' ∈ (step σ op).idxs, x'.iid ≠ x.iid) :
-    ∃ ev ∈ (step σ op).log, ev.kind = .delIndex ∧ ev.id = x.iid ∧ ev.now = σ.clock ∧
-      ev.users = usersOf x.iid σ.shards := by
+    ∃ ev ∈ (step σ op).log, ev.kind = .delIndex ∧ ev.id = x.iid ∧ ev.users = usersOf x.iid σ.shards ∧
+      ∃ q ∈ σ.iq, q.iid = x.iid ∧ ev.now = q.nowD ∧ ev.d = q.dUsed ∧ ev.held = q.held ∧ ev.fromNil = q.fromNil := by
   have keep : (∃ x' ∈ (step σ op).idxs, x'.iid = x.iid) → False := fun ⟨x', h1, h2⟩ => hgone x' h1 h2
   cases op with
-  | tick dt => exact (keep ⟨x, by simp only [step]; split <;> exact hx, rfl⟩).elim
+  | tick dt => exact (keep ⟨x, hx, rfl⟩).elim
   | alter d => exact (keep ⟨x, hx, rfl⟩).elim
   | load sid =>
     refine (keep ⟨x, ?_, rfl⟩).elim
@@ -152,7 +174,8 @@ theorem index_loss_recorded {σ : St} (op : Op) {x : XIndex} (hx : x ∈ σ.idxs
       by_cases hg : delIRes o q.iid σ.idxs = .ok
       · simp only [hg, if_true] at hgone ⊢
         by_cases hqi : x.iid = q.iid
-        · refine ⟨⟨.delIndex, q.iid, q.endT, q.dUsed, σ.clock, q.fresh, σ.refI, usersOf q.iid σ.shards⟩, ?_, rfl, hqi.symm, rfl, by rw [hqi]⟩
+        · refine ⟨⟨.delIndex, q.iid, q.endT, q.dUsed, q.nowD, q.fresh, σ.refI, usersOf q.iid σ.shards, q.fromNil, q.held⟩, ?_, rfl, hqi.symm, by rw [hqi],
+            q, hq ▸ List.mem_cons_self, hqi.symm, rfl, rfl, rfl, rfl⟩
           simp
         · exact (hgone x (List.mem_filter.mpr ⟨hx, by simpa using hqi⟩) rfl).elim
       · simp only [hg, if_false] at hgone
@@ -265,7 +288,7 @@ theorem raising_before_delete_keeps (σ : St) (hp : σ.phase = .idle) (i : Nat) 
     · obtain ⟨c, hcm, hci, hcm'⟩ := hc
       exact ⟨c, by rw [f2, e3, tc]; exact hcm, hci, hcm'⟩
     · intro q hq hqi
-      rcases mem_expiredI (mem_sortI.mp hq) with ⟨x, hxm, he, rfl⟩ | ⟨n, hn, _, rfl⟩
+      rcases mem_expiredI (mem_sortI.mp hq) with ⟨x, hxm, he, _, rfl⟩ | ⟨n, hn, _, rfl⟩
       · rw [K2 x hxm hqi] at he
         exact absurd he (by simp)
       · exact K3 n hn hqi
@@ -311,6 +334,24 @@ def ops2 : List Op :=
 
 example : ((steps (St.init 0 50 cs ci) ops2).log.filter fun e => e.kind == .delIndex).map (fun e => (e.id, e.d, e.now, e.users)) =
     [(11, 50, 260, [(3, 200)])] := by rfl
+
+/-- a shard group that outlives its index group (ends 100 and 300 on the index group [0, 200)):
+at clock 260 with policy 50 the index has expired (200 + 50 < 260), shard 3 has not
+(300 + 50 ≥ 260): `ExpiredIndexes` does not report the index while shard 3 holds it. -/
+def csM : List CSh := [⟨1, 1, 11, 100, false, false, false⟩, ⟨3, 2, 11, 300, false, false, false⟩]
+
+example : ¬ AlignedCat csM ci := by simp [AlignedCat, csM, ci]
+
+example : (run .good (steps (St.init 0 50 csM ci) [.load 1, .load 3, .tick 260])).idxs.map (·.iid) = [11] ∧
+    (run .good (steps (St.init 0 50 csM ci) [.load 1, .load 3, .tick 260])).shards.map (·.sid) = [3] := by decide
+
+/-- … and goes in the run after shard 3 has expired and gone. -/
+example : (run .good (steps (St.init 0 50 csM ci) [.load 1, .load 3, .tick 360])).idxs = [] := by decide
+
+/-- the clock set back after `ExpiredIndexes` decided: the record keeps the reading of the test. -/
+example : ((steps (St.init 0 50 cs ci) [.load 1, .load 3, .tick 260, .refreshS true, .refreshI true, .collectS,
+      .procS .good, .procS .good, .collectI, .tick (-100), .procI .good, .cache]).log.filter fun e => e.kind == .delIndex).map
+        (fun e => (e.id, e.d, e.now)) = [(11, 50, 260)] := by rfl
 
 /-- the same clock, but the policy was made unlimited before the run: nothing is reported,
 nothing goes (hypotheses of `raising_before_delete_keeps` with `d = 0`). -/
